@@ -4,7 +4,7 @@
 (*                                                                         *)
 (*   ScEnc(t, v)  the canonical encoding of value v of type t              *)
 (*   ScDec(t, s)  TOTAL: [ok |-> TRUE, v |-> value, n |-> bytes consumed]  *)
-(*                or ScFail.  It accepts exactly the canonical encodings:  *)
+(*                or ScFailAt(..).  It accepts exactly the canonical encodings:  *)
 (*                ScDec(t, s).ok  =>  ScEnc(t, v) = SubSeq(s, 1, n)        *)
 (*                                                                         *)
 (* Types (records, field k is the kind):                                   *)
@@ -52,8 +52,15 @@ ScMap(kt, vt) == [k |-> "map", kt |-> kt, vt |-> vt]
 ScStruct(fs, tags) == [k |-> "struct", fs |-> fs, tags |-> tags]
 ScTuple(fs) == ScStruct(fs, [i \in 1..Len(fs) |-> -1])
 
-ScFail == [ok |-> FALSE, v |-> <<>>, n |-> 0]
-ScOk(v, n) == [ok |-> TRUE, v |-> v, n |-> n]
+(* A failure names the leaf kind it arose at and why:                       *)
+(*   "short"  the input ends inside a fixed-size part                       *)
+(*   "noncanonical"  compact integer not in its shortest mode               *)
+(*   "range"  compact integer too wide for the type                         *)
+(*   "tag"    bool / option / result / enum discriminant not allowed        *)
+(*   "length" declared length exceeds what is left of the input             *)
+(*   "order"  map keys not strictly ascending                               *)
+ScFailAt(at, why) == [ok |-> FALSE, v |-> <<>>, n |-> 0, at |-> at, why |-> why]
+ScOk(v, n) == [ok |-> TRUE, v |-> v, n |-> n, at |-> "", why |-> ""]
 
 ScDrop(s, n) == SubSeq(s, n + 1, Len(s))
 
@@ -92,28 +99,28 @@ ScCompactEnc(d) ==   \* d canonical BigNat
 ScCompactInt(n) == ScCompactEnc(BnFromInt(n))   \* lengths
 
 (* maxLen: largest big-integer-mode byte count the type can hold (8 / 67)  *)
-ScCompactDec(s, maxLen) ==
-  IF s = <<>> THEN ScFail
+ScCompactDec(s, maxLen, at) ==
+  IF s = <<>> THEN ScFailAt(at, "short")
   ELSE LET mode == s[1] % 4
            hi == s[1] \div 4
        IN CASE mode = 0 -> ScOk(BnFromInt(hi), 1)
-            [] mode = 1 -> IF Len(s) < 2 THEN ScFail
+            [] mode = 1 -> IF Len(s) < 2 THEN ScFailAt(at, "short")
                            ELSE LET n == hi + 64 * s[2]
-                                IN IF n < 64 THEN ScFail ELSE ScOk(BnFromInt(n), 2)
-            [] mode = 2 -> IF Len(s) < 4 THEN ScFail
+                                IN IF n < 64 THEN ScFailAt(at, "noncanonical") ELSE ScOk(BnFromInt(n), 2)
+            [] mode = 2 -> IF Len(s) < 4 THEN ScFailAt(at, "short")
                            ELSE LET n == hi + 64 * s[2] + 16384 * s[3] + 4194304 * s[4]
-                                IN IF n < 16384 THEN ScFail ELSE ScOk(BnFromInt(n), 4)
+                                IN IF n < 16384 THEN ScFailAt(at, "noncanonical") ELSE ScOk(BnFromInt(n), 4)
             [] OTHER -> LET L == hi + 4 IN
-                        IF L > maxLen \/ Len(s) < 1 + L THEN ScFail
+                        IF L > maxLen THEN ScFailAt(at, "range")
+                        ELSE IF Len(s) < 1 + L THEN ScFailAt(at, "short")
                         ELSE LET d == SubSeq(s, 2, 1 + L)
-                             IN IF d[L] = 0 \/ (L = 4 /\ d[4] < 64) THEN ScFail ELSE ScOk(d, 1 + L)
+                             IN IF d[L] = 0 \/ (L = 4 /\ d[4] < 64) THEN ScFailAt(at, "noncanonical") ELSE ScOk(d, 1 + L)
 
 (* a length prefix (Compact<u32>) followed by at least that many bytes;     *)
-(* n = -1 encodes "declared length exceeds what the input could hold"       *)
-ScLenDec(s) ==
-  LET r == ScCompactDec(s, 4)
-  IN IF ~r.ok THEN ScFail
-     ELSE IF ~BnFitsInt(r.v) \/ BnToInt(r.v) > Len(s) - r.n THEN ScFail
+ScLenDec(s, at) ==
+  LET r == ScCompactDec(s, 4, "len")
+  IN IF ~r.ok THEN r
+     ELSE IF ~BnFitsInt(r.v) \/ BnToInt(r.v) > Len(s) - r.n THEN ScFailAt(at, "length")
      ELSE ScOk(BnToInt(r.v), r.n)
 
 (* every encoding of the number d in a LONGER mode than the canonical one   *)
@@ -161,60 +168,60 @@ RECURSIVE ScDec(_, _), ScDecSeq(_, _, _), ScDecPairs(_, _, _, _), ScDecFields(_,
 ScDecSeq(t, s, cnt) ==
   IF cnt = 0 THEN ScOk(<<>>, 0)
   ELSE LET r == ScDec(t, s)
-       IN IF ~r.ok THEN ScFail
+       IN IF ~r.ok THEN r
           ELSE LET q == ScDecSeq(t, ScDrop(s, r.n), cnt - 1)
-               IN IF ~q.ok THEN ScFail ELSE ScOk(<<r.v>> \o q.v, r.n + q.n)
+               IN IF ~q.ok THEN q ELSE ScOk(<<r.v>> \o q.v, r.n + q.n)
 ScDecPairs(kt, vt, s, cnt) ==
   IF cnt = 0 THEN ScOk(<<>>, 0)
   ELSE LET rk == ScDec(kt, s)
-       IN IF ~rk.ok THEN ScFail
+       IN IF ~rk.ok THEN rk
           ELSE LET rv == ScDec(vt, ScDrop(s, rk.n))
-               IN IF ~rv.ok THEN ScFail
+               IN IF ~rv.ok THEN rv
                   ELSE LET q == ScDecPairs(kt, vt, ScDrop(s, rk.n + rv.n), cnt - 1)
-                       IN IF ~q.ok THEN ScFail
+                       IN IF ~q.ok THEN q
                           \* canonical form: keys strictly ascending (sorted, no duplicates)
-                          ELSE IF q.v # <<>> /\ ~ScKeyLess(kt, rk.v, q.v[1][1]) THEN ScFail
+                          ELSE IF q.v # <<>> /\ ~ScKeyLess(kt, rk.v, q.v[1][1]) THEN ScFailAt("map", "order")
                           ELSE ScOk(<<<<rk.v, rv.v>>>> \o q.v, rk.n + rv.n + q.n)
 (* fields in encoding order ord; v = function field index -> value *)
 ScDecFields(fs, s, ord) ==
   IF ord = <<>> THEN ScOk(<<>>, 0)
   ELSE LET r == ScDec(fs[ord[1]], s)
-       IN IF ~r.ok THEN ScFail
+       IN IF ~r.ok THEN r
           ELSE LET q == ScDecFields(fs, ScDrop(s, r.n), Tail(ord))
-               IN IF ~q.ok THEN ScFail ELSE ScOk(<<r.v>> \o q.v, r.n + q.n)
+               IN IF ~q.ok THEN q ELSE ScOk(<<r.v>> \o q.v, r.n + q.n)
 ScDec(t, s) ==
-  CASE t.k \in {"u", "i"} -> IF Len(s) < t.n THEN ScFail ELSE ScOk(SubSeq(s, 1, t.n), t.n)
-    [] t.k = "u128" -> IF Len(s) < 16 THEN ScFail ELSE ScOk(SubSeq(s, 1, 16), 16)
-    [] t.k = "compact" -> ScCompactDec(s, 8)
-    [] t.k = "bigint" -> ScCompactDec(s, 67)
-    [] t.k = "bool" -> IF s = <<>> \/ s[1] > 1 THEN ScFail ELSE ScOk(s[1] = 1, 1)
+  CASE t.k \in {"u", "i"} -> IF Len(s) < t.n THEN ScFailAt(t.k, "short") ELSE ScOk(SubSeq(s, 1, t.n), t.n)
+    [] t.k = "u128" -> IF Len(s) < 16 THEN ScFailAt("u128", "short") ELSE ScOk(SubSeq(s, 1, 16), 16)
+    [] t.k = "compact" -> ScCompactDec(s, 8, "compact")
+    [] t.k = "bigint" -> ScCompactDec(s, 67, "bigint")
+    [] t.k = "bool" -> IF s = <<>> THEN ScFailAt("bool", "short") ELSE IF s[1] > 1 THEN ScFailAt("bool", "tag") ELSE ScOk(s[1] = 1, 1)
     [] t.k \in {"bytes", "str"} ->
-         LET l == ScLenDec(s) IN IF ~l.ok THEN ScFail ELSE ScOk(SubSeq(s, l.n + 1, l.n + l.v), l.n + l.v)
+         LET l == ScLenDec(s, t.k) IN IF ~l.ok THEN l ELSE ScOk(SubSeq(s, l.n + 1, l.n + l.v), l.n + l.v)
     [] t.k = "opt" ->
-         IF s = <<>> \/ s[1] > 1 THEN ScFail
+         IF s = <<>> THEN ScFailAt("opt", "short") ELSE IF s[1] > 1 THEN ScFailAt("opt", "tag")
          ELSE IF s[1] = 0 THEN ScOk(<<>>, 1)
-         ELSE LET r == ScDec(t.t, Tail(s)) IN IF ~r.ok THEN ScFail ELSE ScOk(<<r.v>>, 1 + r.n)
+         ELSE LET r == ScDec(t.t, Tail(s)) IN IF ~r.ok THEN r ELSE ScOk(<<r.v>>, 1 + r.n)
     [] t.k = "res" ->
-         IF s = <<>> \/ s[1] > 1 THEN ScFail
+         IF s = <<>> THEN ScFailAt("res", "short") ELSE IF s[1] > 1 THEN ScFailAt("res", "tag")
          ELSE LET r == ScDec(IF s[1] = 0 THEN t.a ELSE t.b, Tail(s))
-              IN IF ~r.ok THEN ScFail ELSE ScOk([ok |-> s[1] = 0, v |-> r.v], 1 + r.n)
+              IN IF ~r.ok THEN r ELSE ScOk([ok |-> s[1] = 0, v |-> r.v], 1 + r.n)
     [] t.k = "enum" ->
-         IF s = <<>> \/ ~ScVariant(t, s[1]).ok THEN ScFail
+         IF s = <<>> THEN ScFailAt("enum", "short") ELSE IF ~ScVariant(t, s[1]).ok THEN ScFailAt("enum", "tag")
          ELSE LET r == ScDec(ScVariant(t, s[1]).t, Tail(s))
-              IN IF ~r.ok THEN ScFail ELSE ScOk([i |-> s[1], v |-> r.v], 1 + r.n)
+              IN IF ~r.ok THEN r ELSE ScOk([i |-> s[1], v |-> r.v], 1 + r.n)
     [] t.k = "arr" -> ScDecSeq(t.t, s, t.n)
     [] t.k = "slice" ->
-         LET l == ScLenDec(s) IN
-         IF ~l.ok THEN ScFail
-         ELSE LET r == ScDecSeq(t.t, ScDrop(s, l.n), l.v) IN IF ~r.ok THEN ScFail ELSE ScOk(r.v, l.n + r.n)
+         LET l == ScLenDec(s, t.k) IN
+         IF ~l.ok THEN l
+         ELSE LET r == ScDecSeq(t.t, ScDrop(s, l.n), l.v) IN IF ~r.ok THEN r ELSE ScOk(r.v, l.n + r.n)
     [] t.k = "map" ->
-         LET l == ScLenDec(s) IN
-         IF ~l.ok THEN ScFail
-         ELSE LET r == ScDecPairs(t.kt, t.vt, ScDrop(s, l.n), l.v) IN IF ~r.ok THEN ScFail ELSE ScOk(r.v, l.n + r.n)
+         LET l == ScLenDec(s, t.k) IN
+         IF ~l.ok THEN l
+         ELSE LET r == ScDecPairs(t.kt, t.vt, ScDrop(s, l.n), l.v) IN IF ~r.ok THEN r ELSE ScOk(r.v, l.n + r.n)
     [] t.k = "struct" ->
          LET ord == ScFieldOrder(t.tags)
              r == ScDecFields(t.fs, s, ord)
-         IN IF ~r.ok THEN ScFail
+         IN IF ~r.ok THEN r
             \* r.v is in encoding order; put it back into declaration order
             ELSE ScOk([i \in 1..Len(t.fs) |-> r.v[CHOOSE j \in 1..Len(ord) : ord[j] = i]], r.n)
 
